@@ -45,8 +45,8 @@ Local Close Scope N_scope.
 Definition dec (s : string) : text := utf8_decode (unhex s).
 
 (* ---- cases ---- *)
-(* KTermDec: the TermWriter, judged on a terminal with the DEC last-column flag (recorded finding
-   C20-dec-margin: fails when an emitted text is exactly as wide as the terminal) *)
+(* KTermDec: histories aimed at the right margin (an emitted text exactly as wide as the terminal;
+   finding C20-dec-margin, repaired); judged exactly as KTerm *)
 Inductive kind := KTerm | KTermDec | KBuffered | KVirtual (size : nat).
 
 Record inp := mkinp { i_kind : kind; i_cfg : cfg; i_ups : list (nat * text) }.
@@ -109,7 +109,8 @@ Definition obs_eqb (i : inp) (a b : obs) : bool :=
   | KTerm | KTermDec =>
       (screens_eq (tc_of (i_cfg i) false false) (scr0, Ground) (scr0, Ground) (o_segs a) (o_segs b)
        && screens_eq (tc_of (i_cfg i) true false) (scr0, Ground) (scr0, Ground) (o_segs a) (o_segs b)
-       && screens_eq (tc_of (i_cfg i) false true) (scr0, Ground) (scr0, Ground) (o_segs a) (o_segs b))%bool
+       && screens_eq (tc_of (i_cfg i) false true) (scr0, Ground) (scr0, Ground) (o_segs a) (o_segs b)
+       && screens_eq (tc_of (i_cfg i) true true) (scr0, Ground) (scr0, Ground) (o_segs a) (o_segs b))%bool
   | _ => (list_eqb text_eqb (o_segs a) (o_segs b) && list_eqb text_eqb (o_lines a) (o_lines b)
           && Nat.eqb (o_count a) (o_count b))%bool
   end.
@@ -145,14 +146,12 @@ Definition check (i : inp) (o : option obs) : bool :=
   | None => false
   | Some o =>
       match i_kind i with
-      | KTerm => (C20_check_live (tc_of c false false) c (i_ups i) (o_segs o)
-                  && C20_check_live (tc_of c true false) c (i_ups i) (o_segs o)
-                  (* DEC margin: only histories whose texts are narrower than the terminal *)
-                  && C20_check_live (tc_of c false true) c (i_ups i) (o_segs o)
-                  && C20_check_live (tc_of c true true) c (i_ups i) (o_segs o))%bool
-      | KTermDec => (* DEC margin, every history whose texts fit (also: exactly as wide) *)
-                  (C20_check_live_g (tc_of c false false) (tc_of c false true) c (i_ups i) (o_segs o)
-                   && C20_check_live_g (tc_of c true false) (tc_of c true true) c (i_ups i) (o_segs o))%bool
+      | KTerm | KTermDec =>
+          (* idealised margin and DEC last-column flag, with and without ONLCR *)
+          (C20_check_live (tc_of c false false) c (i_ups i) (o_segs o)
+           && C20_check_live (tc_of c true false) c (i_ups i) (o_segs o)
+           && C20_check_live (tc_of c false true) c (i_ups i) (o_segs o)
+           && C20_check_live (tc_of c true true) c (i_ups i) (o_segs o))%bool
       | KBuffered =>
           (C20_check_buffered c (i_ups i) (List.concat (o_segs o))
            && forallb (fun s => match s with [] => true | _ => false end) (removelast (o_segs o)))%bool
